@@ -97,15 +97,19 @@ package page
 //@ predicate fhas(f Factory, id int64) bool = has(cast(f, "*factory").pages, id)
 //@ predicate fpage(f Factory, id int64) MappedPage = cast(f, "*factory").pages[id]
 //@ predicate fpsize(f Factory) int = cast(f, "*factory").pageSize
-//@ predicate factoryOK(f Factory) bool = f != nil && typeis(f, "*factory") && cast(f, "*factory").pages != nil && owns(f, cast(f, "*factory").pages) && all(id, "int64", fhas(f, id) ==> (pageOK(fpage(f, id)) && psize(fpage(f, id)) == fpsize(f)))
+//@ # every mapped page belongs to the factory that created it (pages of different factories are different objects)
+//@ uf pfactory(ref) ref
+//@ predicate factoryOK(f Factory) bool = f != nil && typeis(f, "*factory") && cast(f, "*factory").pages != nil && cast(f, "*factory").pageSize >= 0 && owns(f, cast(f, "*factory").pages) && all(id, "int64", fhas(f, id) ==> (pageOK(fpage(f, id)) && psize(fpage(f, id)) == fpsize(f) && pfactory(fpage(f, id)) == f))
 
 //@ # content of a page file when it is first mapped: a function of (directory, page id)
-//@ uf page_disk(string, int64) map[int]byte
+//@ uf file_disk(string) map[int]byte
+//@ uf page_file(string, int64) string
+//@ pure page_disk(dir string, id int64) map[int]byte = file_disk(page_file(dir, id))
 //@ predicate fpath(f Factory) string = cast(f, "*factory").path
 //@ func Factory.AcquirePage
 //@   requires factoryOK(self)
 //@   modifies cast(self, "*factory").pages[*], cast(self, "*factory").size.val
-//@   ensures result1 == nil ==> (fhas(self, index) && fpage(self, index) == result0 && pageOK(result0) && psize(result0) == fpsize(self))
+//@   ensures result1 == nil ==> (fhas(self, index) && fpage(self, index) == result0 && pageOK(result0) && psize(result0) == fpsize(self) && pfactory(result0) == self)
 //@   ensures (result1 == nil && old(fhas(self, index))) ==> result0 == old(fpage(self, index))
 //@   ensures (result1 == nil && !old(fhas(self, index))) ==> (fresh(result0) && pbytes(result0) == page_disk(fpath(self), index))
 //@   ensures all(id, "int64", id != index ==> (fhas(self, id) == old(fhas(self, id)) && fpage(self, id) == old(fpage(self, id))))
@@ -115,15 +119,69 @@ package page
 //@ func Factory.GetPage
 //@   requires factoryOK(self)
 //@   ensures result1 == fhas(self, index)
-//@   ensures result1 ==> (result0 == fpage(self, index) && pageOK(result0) && psize(result0) == fpsize(self))
+//@   ensures result1 ==> (result0 == fpage(self, index) && pageOK(result0) && psize(result0) == fpsize(self) && pfactory(result0) == self)
 //@ end
 //@ func Factory.TruncatePages
 //@   requires factoryOK(self)
-//@   modifies cast(self, "*factory").pages[*], cast(self, "*factory").size.val
+//@   modifies cast(self, "*factory").pages[*], cast(self, "*factory").size.val, any(*mappedPage).closed.val
 //@   ensures all(id, "int64", id >= index ==> (fhas(self, id) == old(fhas(self, id)) && fpage(self, id) == old(fpage(self, id))))
 //@   ensures all(id, "int64", fhas(self, id) ==> (old(fhas(self, id)) && fpage(self, id) == old(fpage(self, id))))
 //@   ensures factoryOK(self)
 //@ end
 //@ func Factory.Close
 //@   modifies cast(self, "*factory").closed.val
+//@ end
+
+//@ # ---- factory implementation -----------------------------------------------------------------------
+//@ # constructor of a mapped page: trusted (mmap, file system); establishes pageOK
+//@ func NewMappedPage
+//@   assume
+//@   ensures result1 == nil ==> (fresh(result0) && pageOK(result0) && psize(result0) == size && pbytes(result0) == file_disk(fileName) && pfactory(result0) == file_factory(fileName))
+//@ end
+//@ uf file_factory(string) ref
+//@ func factory.pageFileName
+//@   assume
+//@   ensures result == page_file(f.path, index) && file_factory(result) == f
+//@ end
+//@ func removeFileFunc
+//@   assume
+//@ end
+//@ func MappedPage.Close
+//@   modifies cast(self, "*mappedPage").closed.val
+//@ end
+//@ globalinv errFactoryClosed != nil
+//@ lock factory.mutex protects pages
+//@ func factory.GetPage
+//@   prop C05 C06
+//@   requires factoryOK(f)
+//@   ensures result1 == fhas(f, index)
+//@   ensures result1 ==> (result0 == fpage(f, index) && pageOK(result0) && psize(result0) == fpsize(f) && pfactory(result0) == f)
+//@ end
+//@ func factory.AcquirePage
+//@   prop C05 C06
+//@   requires factoryOK(f)
+//@   modifies f.pages[*], f.size.val
+//@   ensures[has] result1 == nil ==> fhas(f, index)
+//@   ensures[is] result1 == nil ==> fpage(f, index) == result0
+//@   ensures[ok] result1 == nil ==> pageOK(result0)
+//@   ensures[size] result1 == nil ==> psize(result0) == fpsize(f)
+//@   ensures[owner] result1 == nil ==> pfactory(result0) == f
+//@   ensures (result1 == nil && old(fhas(f, index))) ==> result0 == old(fpage(f, index))
+//@   ensures[fresh] (result1 == nil && !old(fhas(f, index))) ==> fresh(result0)
+//@   ensures[disk] (result1 == nil && !old(fhas(f, index))) ==> pbytes(result0) == page_disk(fpath(f), index)
+//@   ensures all(id, "int64", id != index ==> (fhas(f, id) == old(fhas(f, id)) && fpage(f, id) == old(fpage(f, id))))
+//@   ensures result1 != nil ==> (fhas(f, index) == old(fhas(f, index)) && fpage(f, index) == old(fpage(f, index)))
+//@   ensures factoryOK(f)
+//@ end
+//@ func factory.TruncatePages
+//@   prop C06
+//@   requires factoryOK(f)
+//@   modifies f.pages[*], f.size.val, any(*mappedPage).closed.val
+//@   ensures all(id, "int64", id >= index ==> (fhas(f, id) == old(fhas(f, id)) && fpage(f, id) == old(fpage(f, id))))
+//@   ensures all(id, "int64", fhas(f, id) ==> (old(fhas(f, id)) && fpage(f, id) == old(fpage(f, id))))
+//@   ensures factoryOK(f)
+//@   loop 1 frame f.pages[*], f.size.val, any(*mappedPage).closed.val
+//@   loop 1 invariant f.pages == old(f.pages) && f.pages != nil && factoryOK(f)
+//@   loop 1 invariant all(id, "int64", id >= index ==> (fhas(f, id) == old(fhas(f, id)) && fpage(f, id) == old(fpage(f, id))))
+//@   loop 1 invariant all(id, "int64", fhas(f, id) ==> (old(fhas(f, id)) && fpage(f, id) == old(fpage(f, id))))
 //@ end
